@@ -303,7 +303,7 @@ def mon_c11(h, obs):
         if rest.startswith("open-error"):
             hits.append(Hit(f"C11/{_cls(mask)}", f"after a crash with durable writes {mask} while committing block {hh} the ledger does not open: {rest}", op))
             break
-        mm = re.match(r"opened chain=(\d+) state=(\d+) blockfile=(\d+) head=(\w+)(?: statekey=(\S+))?", rest)
+        mm = re.match(r"opened chain=(\d+) state=(\d+) blockfile=(\d+) head=(\w+)(?: statekey=(\S+))?(?: root=(\S+))?", rest)
         c, s, b, head = int(mm.group(1)), int(mm.group(2)), int(mm.group(3)), mm.group(4)
         sk = mm.group(5)
         if c not in (hh - 1, hh):
@@ -322,6 +322,11 @@ def mon_c11(h, obs):
         if sk is not None and skb != "" and c == s and skb != str(want_bal):
             hits.append(Hit("C11/account-record-not-at-height",
                             f"after a crash ({op.split()[0]} {mask}) in block {hh} the ledger reopens at height {c} with balance {skb} of a0, the balance as of that height is {want_bal}", op))
+            break
+        if mm.group(6) is not None and mm.group(6) != "match" and c == s:
+            hits.append(Hit("C11/head-root-is-not-the-state-stores-root",
+                            f"after a crash ({op.split()[0]} {mask}) in block {hh} the ledger reopens at height {c}, but the state root of the head block is not the root the "
+                            f"state store continues from ({mm.group(6)}): the following blocks get other state roots than on a node that never crashed", op))
             break
         # continuation
         rest_obs = obs[i + 1:]
